@@ -1,7 +1,7 @@
 #!/bin/sh
 # Re-run every recorded seeded change against the current checks (4 at a time).  usage: seedall.sh [names...]  -> /tmp/seedall.log
 cd /verif
-NAMES="${@:-$(ls seeded | sort)}"
+NAMES="${@:-$(ls -d seeded/C*/ | xargs -n1 basename | sort)}"
 : > /tmp/seedall.log
-echo $NAMES | tr ' ' '\n' | xargs -P 4 -I{} sh -c 'n={}; out=$(sh lib/seedtest.sh $n 2>&1); rc=$?; echo "$n rc=$rc $(echo "$out" | grep -v "^KNOWN" | tail -1 | cut -c1-330)" >> /tmp/seedall.log'
+echo $NAMES | tr ' ' '\n' | xargs -P 4 -I{} sh -c 'n={}; out=$(sh lib/seedtest.sh $n 2>&1); rc=$?; how=oracle; echo "$out" | grep "^VIOLATION" | grep -qv "no-failing-input-found" || how=TIE-ONLY; [ $rc -eq 0 ] && how=MISSED; echo "$n rc=$rc $how $(echo "$out" | grep -v "^KNOWN" | tail -1 | cut -c1-330)" >> /tmp/seedall.log'
 sort /tmp/seedall.log
